@@ -54,5 +54,13 @@ CHECKS = {
         note="Constant-offset zones by public record (>=1970); DST zones differential vs zoneinfo; fractional duration texts < 1e8 s.",
         design_ref="DESIGN.md §4 C11",
     ),
+    "C02": dict(
+        technique="exhaustive enumeration of operator trees x outcome assignments + Hypothesis for deeper trees, against a strong-Kleene three-valued reference model",
+        category="exploration",
+        text="Every tree over &&,||,!,?: up to 2 operators (3 in thorough) x every {T,F,E,N} leaf assignment, errors realised by 20 kinds of failing "
+             "sub-expression, all()/exists() over every list of outcome codes up to length 4 (5 thorough), logical_* called directly; both runners.",
+        note="Positions where the statement is silent (N && T, N || F, !N, N && E) are modelled as unspecified and skipped; sub-expressions fully parenthesised.",
+        design_ref="DESIGN.md §4 C02",
+    ),
 }
 NOT_APPLICABLE = {}
